@@ -384,7 +384,7 @@ def _defaults_left_out(ns, case, shape, ell, prj, hemi=None):
 def call_inverse(ns, case, zone, east, north, hemi, ell, prj, tag='inverse'):
     _, shape = core.delivery_of([case, tag])
     return core.shaped_call(ns.convert.grid2geo, ['zone', 'east', 'north', 'hemisphere', 'ellipsoid', 'prj'],
-                            list(core.rep_values(case.get('rep'), zone, east, north)) + [hemi, ell, prj], shape,
+                            list(core.rep_values(case.get('rep'), zone, east, north)) + [core.fresh_str(hemi), ell, prj], shape,
                             _defaults_left_out(ns, case, shape, ell, prj, hemi))
 
 
